@@ -285,8 +285,8 @@ std::string eval_inner(const Sx &q) {
   return out.str();
 }
 
-// Every history runs in a forked child: with region.skip_unknown_regions=false the pinned tree
-// dereferences a dangling `this` (see the C15 findings) and may die with SIGSEGV; the parent then
+// Every history runs in a forked child: a crash of the implementation (before fix 70510e9 the tree
+// dereferenced a dangling `this` with region.skip_unknown_regions=false) is a result: the parent
 // reports `(crash <signal>)` for that history and goes on.  RGN_NOFORK=1 disables the fork (debugging).
 std::string eval(const Sx &q) {
   if (getenv("RGN_NOFORK")) return eval_inner(q);
